@@ -2,6 +2,7 @@ package c04
 
 import (
 	"fmt"
+	"strings"
 
 	"verif/core"
 )
@@ -265,17 +266,17 @@ func (f *fam) refs() {
 		}
 		for _, acc := range accs {
 			ref := core.EVar("m", acc...)
-			feat := "shape=" + sn
-			f.expr(F, feat+",print-elvis", core.EBin("elvis", ref, core.EStr("~")), d)
-			f.expr(F, feat+",print", ref, d)
-			f.expr(F, feat+",isNonnull", core.EFn("isNonnull", ref), d)
-			f.expr(F, feat+",not", core.ENot(ref), d)
-			f.expr(F, feat+",tern-cond", core.ETern(ref, core.EStr("T"), core.EStr("F")), d)
-			f.expr(F, feat+",eq-null", core.EBin("eq", core.EBin("elvis", ref, core.ENull()), core.ENull()), d)
-			f.expr(F, feat+",concat", core.EBin("add", core.EStr("v="), ref), d)
-			f.add(F, feat+",css", one(cmds(core.CCss(ref, "suf")), d, "false", "m"))
-			f.add(F, feat+",let", one(cmds(core.CLetV("q", ref), pr(core.EBin("elvis", core.EVar("q"), core.EStr("~")))), d, "false", "m"))
-			f.add(F, feat+",escaped", one(cmds(pr(core.EBin("elvis", ref, core.EStr("<~>")))), d, "true", "m"))
+			feat := ",shape=" + sn
+			f.expr(F, "ctx=print-elvis"+feat, core.EBin("elvis", ref, core.EStr("~")), d)
+			f.expr(F, "ctx=print"+feat, ref, d)
+			f.expr(F, "ctx=isNonnull"+feat, core.EFn("isNonnull", ref), d)
+			f.expr(F, "ctx=not"+feat, core.ENot(ref), d)
+			f.expr(F, "ctx=tern-cond"+feat, core.ETern(ref, core.EStr("T"), core.EStr("F")), d)
+			f.expr(F, "ctx=eq-null"+feat, core.EBin("eq", core.EBin("elvis", ref, core.ENull()), core.ENull()), d)
+			f.expr(F, "ctx=concat"+feat, core.EBin("add", core.EStr("v="), ref), d)
+			f.add(F, "ctx=css"+feat, one(cmds(core.CCss(ref, "suf")), d, "false", "m"))
+			f.add(F, "ctx=let"+feat, one(cmds(core.CLetV("q", ref), pr(core.EBin("elvis", core.EVar("q"), core.EStr("~")))), d, "false", "m"))
+			f.add(F, "ctx=escaped"+feat, one(cmds(pr(core.EBin("elvis", ref, core.EStr("<~>")))), d, "true", "m"))
 		}
 	}
 	// injected data
@@ -329,7 +330,13 @@ func (f *fam) directives() {
 			for _, d2 := range single {
 				for _, v := range cvals {
 					ds := []core.Cmd{d1, d2}
-					f.add(F, "directive="+name(ds)+",autoescape="+ta, one(cmds(pr(vX, ds...)), dm("x", v), ta))
+					base := "directive-chain"
+					for _, special := range []string{"changeNewlineToBr", "insertWordBreaks"} {
+						if d1["name"] == special || d2["name"] == special {
+							base += "-with-" + special
+						}
+					}
+					f.add(F, base+",chain="+name(ds)+",autoescape="+ta, one(cmds(pr(vX, ds...)), dm("x", v), ta))
 				}
 			}
 		}
@@ -376,7 +383,7 @@ func (f *fam) messages() {
 		for _, strat := range []string{"", "lacks", "identity", "reverse", "wrap"} {
 			for _, ta := range []string{"true", "false"} {
 				body := cloneCmds(bodies[bn])
-				c := f.add(F, "msg="+bn+",catalogue="+orNone(strat), one(cmds(txt("["), core.CMsg("d", body), txt("]")), d, ta))
+				c := f.add(F, "msg-catalogue="+catClass(strat)+",body="+bn+",strategy="+orNone(strat), one(cmds(txt("["), core.CMsg("d", body), txt("]")), d, ta))
 				c.Msgs = strat
 			}
 		}
@@ -390,7 +397,7 @@ func (f *fam) messages() {
 				core.CCall("t.c", "all", nil), core.CLetC("s", cmds(core.CMsg("d", cmds(txt("in let "), pr(vA))))), pr(core.EVar("s"))), TA: "true"},
 			"t.c": {Params: []core.Param{{Name: "a"}}, Body: cmds(core.CMsg("d", cmds(txt("callee "), pr(vA), txt(".")))), TA: "true"},
 		}, Entry: "t.m", Data: dm("a", core.VInt(3), "x", core.VList(core.VInt(1), core.VInt(2))), IJ: core.V{"t": "none"}, Glob: map[string]core.V{}, Plan: noPlan(), Aliases: map[string]bool{}}
-		c := f.add(F, "msg=in-control-flow,catalogue="+orNone(strat), p)
+		c := f.add(F, "msg-catalogue="+catClass(strat)+",body=in-control-flow,strategy="+orNone(strat), p)
 		c.Msgs = strat
 	}
 	// plural
@@ -409,15 +416,25 @@ func (f *fam) messages() {
 					if strat == "" && rule == "cs" {
 						continue
 					}
-					c := f.add(F, fmt.Sprintf("plural,case0=%v,catalogue=%s,rule=%s", c0, orNone(strat), rule),
+					c := f.add(F, fmt.Sprintf("plural-catalogue=%s,case0=%v,strategy=%s,rule=%s", catClass(strat), c0, orNone(strat), rule),
 						one(cmds(core.CMsg("d", cmds(plural(core.EVar("n"), c0)))), dm("n", core.VInt(n), "b", core.VStr("<u>")), "true"))
 					c.Msgs, c.Rule = strat, rule
 				}
 			}
 		}
-		c := f.add(F, "plural,subject=expr", one(cmds(core.CMsg("d", cmds(plural(core.EVar("m", core.AKey("n", false)), false)))), dm("m", vm("n", core.VInt(n)), "b", core.VStr("u")), "false"))
+		c := f.add(F, "plural-catalogue=present,subject=expr", one(cmds(core.CMsg("d", cmds(plural(core.EVar("m", core.AKey("n", false)), false)))), dm("m", vm("n", core.VInt(n)), "b", core.VStr("u")), "false"))
 		c.Msgs = "identity"
 	}
+}
+
+func catClass(s string) string {
+	switch s {
+	case "":
+		return "none"
+	case "lacks":
+		return "lacks"
+	}
+	return "present"
 }
 
 func orNone(s string) string {
@@ -443,14 +460,14 @@ func (f *fam) loops() {
 		}
 		for _, kw := range []string{"foreach", "for"} {
 			for _, emp := range []bool{false, true} {
-				f.add(F, fmt.Sprintf("%s-list,ifempty=%v", kw, emp), one(cmds(core.CForeach(kw, "v", vX, helpers("v"), core.Opt(emp, cmds(txt("EMPTY")))), txt(".")), dm("x", core.VList(xs...)), "false"))
+				f.add(F, fmt.Sprintf("foreach-list,kw=%s,ifempty=%v", kw, emp), one(cmds(core.CForeach(kw, "v", vX, helpers("v"), core.Opt(emp, cmds(txt("EMPTY")))), txt(".")), dm("x", core.VList(xs...)), "false"))
 			}
 		}
 		f.add(F, "foreach-list-literal", one(cmds(core.CForeach("foreach", "v", core.LitOf(core.VList(xs...)), helpers("v"), core.Opt(true, cmds(txt("EMPTY"))))), nil, "false"))
 		// nested: helper on inner / outer variable
-		f.add(F, "nested,helper-on-inner", one(cmds(core.CForeach("foreach", "o", vX, cmds(core.CForeach("foreach", "i", core.EList(core.EStr("p"), core.EStr("q")), helpers("i"), noElse), txt("/")), noElse)), dm("x", core.VList(xs...)), "false"))
-		f.add(F, "nested,helper-on-outer", one(cmds(core.CForeach("foreach", "o", vX, cmds(core.CForeach("foreach", "i", core.EList(core.EStr("p"), core.EStr("q")), helpers("o"), noElse), txt("/")), noElse)), dm("x", core.VList(xs...)), "false"))
-		f.add(F, "nested,helper-on-outer-after-inner-loop", one(cmds(core.CForeach("foreach", "o", vX, append(cmds(core.CForeach("foreach", "i", core.EList(core.EStr("p")), cmds(pr(core.EVar("i"))), noElse)), helpers("o")...), noElse)), dm("x", core.VList(xs...)), "false"))
+		f.add(F, "nested-loop-helper-on-inner", one(cmds(core.CForeach("foreach", "o", vX, cmds(core.CForeach("foreach", "i", core.EList(core.EStr("p"), core.EStr("q")), helpers("i"), noElse), txt("/")), noElse)), dm("x", core.VList(xs...)), "false"))
+		f.add(F, "loop-helper-on-outer-loop-var", one(cmds(core.CForeach("foreach", "o", vX, cmds(core.CForeach("foreach", "i", core.EList(core.EStr("p"), core.EStr("q")), helpers("o"), noElse), txt("/")), noElse)), dm("x", core.VList(xs...)), "false"))
+		f.add(F, "loop-helper-after-inner-loop", one(cmds(core.CForeach("foreach", "o", vX, append(cmds(core.CForeach("foreach", "i", core.EList(core.EStr("p")), cmds(pr(core.EVar("i"))), noElse)), helpers("o")...), noElse)), dm("x", core.VList(xs...)), "false"))
 	}
 	// range loops
 	rs := [][]int{{0}, {1}, {3}, {2, 5}, {3, 3}, {0, 7, 2}, {1, 8, 3}, {5, 2}}
@@ -461,13 +478,13 @@ func (f *fam) loops() {
 		}
 		plain := cmds(pr(core.EVar("v")), txt(";"))
 		for _, kw := range []string{"foreach", "for"} {
-			f.add(F, fmt.Sprintf("%s-range,args=%d", kw, len(r)), one(cmds(core.CForeach(kw, "v", core.EFn("range", args...), plain, noElse), txt(".")), nil, "false"))
+			f.add(F, fmt.Sprintf("range-loop,kw=%s,args=%d", kw, len(r)), one(cmds(core.CForeach(kw, "v", core.EFn("range", args...), plain, noElse), txt(".")), nil, "false"))
 		}
-		f.add(F, fmt.Sprintf("range,args=%d,ifempty", len(r)), one(cmds(core.CForeach("foreach", "v", core.EFn("range", args...), plain, core.Opt(true, cmds(txt("EMPTY")))), txt(".")), nil, "false"))
-		f.add(F, fmt.Sprintf("range,args=%d,helpers", len(r)), one(cmds(core.CForeach("foreach", "v", core.EFn("range", args...), helpers("v"), noElse), txt(".")), nil, "false"))
+		f.add(F, fmt.Sprintf("range-loop-ifempty,args=%d", len(r)), one(cmds(core.CForeach("foreach", "v", core.EFn("range", args...), plain, core.Opt(true, cmds(txt("EMPTY")))), txt(".")), nil, "false"))
+		f.add(F, fmt.Sprintf("range-loop-helpers,args=%d", len(r)), one(cmds(core.CForeach("foreach", "v", core.EFn("range", args...), helpers("v"), noElse), txt(".")), nil, "false"))
 	}
-	f.add(F, "range,arg-expr", one(cmds(core.CForeach("for", "v", core.EFn("range", core.EBin("add", vA, i1)), cmds(pr(core.EVar("v"))), noElse)), dm("a", core.VInt(2)), "false"))
-	f.add(F, "range,arg-length", one(cmds(core.CForeach("for", "v", core.EFn("range", core.EFn("length", vX)), cmds(pr(core.EVar("x", core.AExpr(core.EVar("v"), false)))), noElse)), dm("x", core.VList(core.VStr("a"), core.VStr("b"))), "false"))
+	f.add(F, "range-loop,arg-expr", one(cmds(core.CForeach("for", "v", core.EFn("range", core.EBin("add", vA, i1)), cmds(pr(core.EVar("v"))), noElse)), dm("a", core.VInt(2)), "false"))
+	f.add(F, "range-loop,arg-length", one(cmds(core.CForeach("for", "v", core.EFn("range", core.EFn("length", vX)), cmds(pr(core.EVar("x", core.AExpr(core.EVar("v"), false)))), noElse)), dm("x", core.VList(core.VStr("a"), core.VStr("b"))), "false"))
 	// switch
 	for _, subj := range []core.V{core.VInt(0), core.VInt(1), core.VInt(2), core.VInt(5), core.VStr("a"), core.VStr("1"), core.VFloat(2, 0), core.VBool(true), core.VNull()} {
 		for _, def := range []bool{true, false} {
@@ -488,7 +505,7 @@ func (f *fam) calls() {
 	F := "calls"
 	show := cmds(txt("("), pr(core.EBin("elvis", vA, core.EStr("~"))), txt(","), pr(core.EBin("elvis", vB, core.EStr("~"))), txt(","), pr(core.EBin("elvis", core.EVar("ij", core.AKey("k", true)), core.EStr("~"))), txt(")"))
 	callee := &core.Tmpl{Params: []core.Param{{Name: "a", Opt: true}, {Name: "b", Opt: true}}, Body: show, TA: "true"}
-	mid := &core.Tmpl{Params: []core.Param{{Name: "a", Opt: true}, {Name: "b", Opt: true}}, Body: cmds(txt("<"), core.CCall("o.ns.leaf", "all", nil), txt(">")), TA: "true"}
+	mid := &core.Tmpl{Params: []core.Param{{Name: "a", Opt: true}, {Name: "b", Opt: true}}, Body: cmds(txt("<"), pr(core.EBin("elvis", vA, core.EStr("~"))), pr(core.EBin("elvis", vB, core.EStr("~"))), core.CCall("o.ns.leaf", "all", nil), txt(">")), TA: "true"}
 	type cs struct {
 		feat string
 		call core.Cmd
@@ -512,7 +529,7 @@ func (f *fam) calls() {
 	for _, c := range calls {
 		for _, withIJ := range []bool{false, true} {
 			for _, letShadow := range []bool{false, true} {
-				body := cmds()
+				body := cmds(pr(core.EBin("elvis", vA, core.EStr("~"))), pr(core.EBin("elvis", vB, core.EStr("~"))), pr(core.EBin("elvis", core.EVar("m", core.AKey("a", true)), core.EStr("~"))), txt(":"))
 				if letShadow {
 					// caller locals must not travel with data="all"
 					body = append(body, core.CLetV("a", core.EInt(1000)), pr(vA), core.CForeach("foreach", "b", core.EList(core.EStr("loop")), cmds(pr(vB), cloneAny(c.call).(map[string]interface{})), noElse))
@@ -527,7 +544,7 @@ func (f *fam) calls() {
 				if withIJ {
 					p.IJ = vm("k", core.VStr("IJ<"))
 				}
-				f.add(F, fmt.Sprintf("call,%s,ij=%v,caller-locals=%v", c.feat, withIJ, letShadow), p)
+				f.add(F, fmt.Sprintf("call:%s,ij=%v,caller-locals=%v", strings.Replace(c.feat, ",", "+", -1), withIJ, letShadow), p)
 			}
 		}
 	}
@@ -568,48 +585,49 @@ func (f *fam) scoping() {
 	// a local binder inside a block, then a use of the same name after the block
 	inner := func() []core.Cmd { return cmds(core.CLetV("x", core.EStr("LOCAL")), txt("in:"), pr(vX), txt(";")) }
 	type blk struct {
-		name string
-		make func(taken bool) core.Cmd
+		name  string
+		class string
+		make  func(taken bool) core.Cmd
 	}
 	blocks := []blk{
-		{"if", func(t bool) core.Cmd { return core.CIf(cmds(core.CBr(core.EBool(t), inner())), noElse) }},
-		{"elseif", func(t bool) core.Cmd {
+		{"if", "if", func(t bool) core.Cmd { return core.CIf(cmds(core.CBr(core.EBool(t), inner())), noElse) }},
+		{"elseif", "if", func(t bool) core.Cmd {
 			return core.CIf(cmds(core.CBr(core.EBool(false), cmds(txt("no"))), core.CBr(core.EBool(t), inner())), noElse)
 		}},
-		{"else", func(t bool) core.Cmd {
+		{"else", "if", func(t bool) core.Cmd {
 			return core.CIf(cmds(core.CBr(core.EBool(!t), cmds(txt("no")))), core.Opt(true, inner()))
 		}},
-		{"case", func(t bool) core.Cmd {
+		{"case", "switch", func(t bool) core.Cmd {
 			n := 1
 			if !t {
 				n = 2
 			}
 			return core.CSwitch(core.EInt(n), cmds(core.CCase([]core.E{i1}, inner())), core.Opt(true, cmds(txt("d"))))
 		}},
-		{"default", func(t bool) core.Cmd {
+		{"default", "switch", func(t bool) core.Cmd {
 			n := 2
 			if !t {
 				n = 1
 			}
 			return core.CSwitch(core.EInt(n), cmds(core.CCase([]core.E{i1}, cmds(txt("c")))), core.Opt(true, inner()))
 		}},
-		{"foreach-body", func(t bool) core.Cmd {
+		{"foreach-body", "loop", func(t bool) core.Cmd {
 			l := core.EList(i1)
 			if !t {
 				l = core.EList()
 			}
 			return core.CForeach("foreach", "v", l, inner(), noElse)
 		}},
-		{"ifempty", func(t bool) core.Cmd {
+		{"ifempty", "loop", func(t bool) core.Cmd {
 			l := core.EList()
 			if !t {
 				l = core.EList(i1)
 			}
 			return core.CForeach("foreach", "v", l, cmds(txt("it")), core.Opt(true, inner()))
 		}},
-		{"let-content", func(t bool) core.Cmd { return core.CLetC("w", inner()) }},
-		{"param-content", func(t bool) core.Cmd { return core.CCall("t.c", "none", nil, core.CPC("p", inner())) }},
-		{"log", func(t bool) core.Cmd { return core.CLog(inner()) }},
+		{"let-content", "content", func(t bool) core.Cmd { return core.CLetC("w", inner()) }},
+		{"param-content", "content", func(t bool) core.Cmd { return core.CCall("t.c", "none", nil, core.CPC("p", inner())) }},
+		{"log", "content", func(t bool) core.Cmd { return core.CLog(inner()) }},
 	}
 	outers := []string{"param", "let", "loopvar"}
 	for _, b := range blocks {
@@ -635,15 +653,21 @@ func (f *fam) scoping() {
 				if taken {
 					tk = "taken"
 				}
+				params := []core.Param{}
+				data := dm()
+				if o == "param" {
+					params = append(params, core.Param{Name: "x", Opt: true})
+					data = dm("x", core.VStr("PARAM"))
+				}
 				p := &core.Program{Bundle: map[string]*core.Tmpl{
-					"t.m": {Params: []core.Param{{Name: "x", Opt: true}}, Body: top, TA: "false"},
+					"t.m": {Params: params, Body: top, TA: "false"},
 					"t.c": {Params: []core.Param{{Name: "p", Opt: true}}, Body: cmds(pr(core.EVar("p"))), TA: "false"},
-				}, Entry: "t.m", Data: dm("x", core.VStr("PARAM")), IJ: core.V{"t": "none"}, Glob: map[string]core.V{}, Plan: noPlan(), Aliases: map[string]bool{}}
+				}, Entry: "t.m", Data: data, IJ: core.V{"t": "none"}, Glob: map[string]core.V{}, Plan: noPlan(), Aliases: map[string]bool{}}
 				verb := "shadows"
 				if taken {
 					verb = "leaks-over"
 				}
-				f.add(F, fmt.Sprintf("let-in-%s-%s-%s-%s", tk, b.name, verb, o), p)
+				f.add(F, fmt.Sprintf("let-in-%s-%s-%s-%s", tk, b.class, verb, o), p).Note = "block=" + b.name
 			}
 		}
 	}
